@@ -290,6 +290,20 @@ Proof.
   destruct (Nat.leb_spec n (Nat.min bmax 7)); [lia | exact H].
 Qed.
 
+Theorem check_row_sound bmax n rs :
+  check_row bmax n rs = true ->
+  forall k, 0 <= k <= tri (Z.of_nat n) -> nth (Z.to_nat k) rs 0 = count_spec bmax n k.
+Proof.
+  unfold check_row, count_spec. cbv zeta. intros H k Hk.
+  apply andb_true_iff in H. destruct H as [_ H].
+  destruct (Z.ltb_spec k 0); [lia|].
+  assert (Hin : In (Z.to_nat k) (seq 0 (S (Z.to_nat (tri (Z.of_nat n)))))) by (apply in_seq; lia).
+  destruct (n <=? Nat.min bmax 7)%nat.
+  - rewrite forallb_forall in H. apply Z.eqb_eq. apply H, Hin.
+  - rewrite forallb_forall in H. specialize (H _ Hin). apply Z.eqb_eq in H. rewrite H.
+    unfold cross. destruct (Z.ltb_spec k 0); [lia | reflexivity].
+Qed.
+
 (* the model's outputs pass the checker *)
 Theorem Q_model_meets_check_upto_6 : forall n k, (1 <= n <= 6)%nat -> 0 <= k <= tri (Z.of_nat n) ->
   check_count 6 n k (Qv n k) = true /\ check_count 6 n k (QQv n k) = true.
